@@ -29,6 +29,12 @@ def words(prefix, n, start=1):
 
 def scenario(name, family, html, files=None, user_css=None, expect=None, engines=None, main="index.html"):
     assert name not in SCEN, name
+    expect = dict(expect or {})
+    nprobes = html.count('class="probe p') if isinstance(html, str) else 0
+    assert nprobes == PROBE_N[0], (name, nprobes, PROBE_N[0])
+    PROBE_N[0] = 0
+    if nprobes or "probes" in expect:
+        expect["probes"] = nprobes
     SCEN[name] = dict(name=name, family=family, html=html, files=files or {}, user_css=user_css or [],
                       expect=expect or {}, engines=engines or ["pango"], main=main)
 
@@ -93,8 +99,21 @@ def doc(css, body, head=""):
     return "<!DOCTYPE html>\n<html><head><meta charset=utf-8>%s<style>\n%s</style></head>\n<body>\n%s\n</body></html>\n" % (head, css, body)
 
 
-PROBE_CSS = '.probe::after { content: "np" counter(pages) }\n'
-TWIN_CSS = '.probe::after { content: "np9" }\n'
+# Probes are literal in the document ("np9": the restart-free twin). A run activates a
+# subset S of them with a generated USER stylesheet
+#   .pK::after { content: "np" counter(pages) !important }
+# (user !important beats author normal), which makes makeAllPages re-make exactly the
+# pages holding an active probe: S is the restart pattern explored by seed.
+PROBE_CSS = '.probe::after { content: "np9" }\n'
+
+
+PROBE_N = [0]
+
+
+def probe():
+    k = PROBE_N[0]
+    PROBE_N[0] += 1
+    return '<span class="probe p%d"></span>' % k
 
 
 def para(ws, attrs="", probe_after=None):
@@ -103,7 +122,7 @@ def para(ws, attrs="", probe_after=None):
     for i, w in enumerate(ws):
         parts.append(w)
         if probe_after is not None and i == probe_after:
-            parts.append('<span class=probe></span>')
+            parts.append(probe())
     return "<p%s>%s</p>" % ((" " + attrs) if attrs else "", " ".join(parts))
 
 
@@ -131,10 +150,11 @@ def gen_pag():
     ]
     for (W, H, M, np_, wr, orph, wid, forced, probes) in configs:
         n += 1
-        for twin in ([False, True] if probes else [False]):
-            name = "pag-%02d%s" % (n, "-twin" if twin else "")
+        for twin in [False]:
+            name = "pag-%02d" % n
+            PROBE_N[0] = 0
             rr = random.Random(7000 + n)
-            css = page_css(W, H, M) + BASE + "p { orphans: %d; widows: %d }\n" % (orph, wid) + (TWIN_CSS if twin else PROBE_CSS)
+            css = page_css(W, H, M) + BASE + "p { orphans: %d; widows: %d }\n" % (orph, wid) + PROBE_CSS
             body = []
             flow = []
             fexp = []
@@ -156,8 +176,6 @@ def gen_pag():
             exp = dict(flows={"main": flow}, margin=True, probes=len(probes), page_w=W, page_h=H,
                        forced=fexp, conserve=True, geometry=True, fits_page=True, plain=plain,
                        line_height=12, margin_top=M, margin_bottom=M)
-            if probes and not twin:
-                exp["twin"] = name + "-twin"
             scenario(name, "pag", doc(css, "\n".join(body)), expect=exp, engines=["pango", "gotext"] if n in (1, 4) and not probes else ["pango"])
 
     # named pages / first / left / right / blank selectors
@@ -202,9 +220,10 @@ def gen_pag():
 def gen_oof():
     # 1-4: floats broken across pages, several at once, with / without probes
     for n, (nfl, probes) in enumerate([(2, []), (2, [1]), (3, []), (3, [0, 2])], start=1):
-        for twin in ([False, True] if probes else [False]):
-            name = "oof-%02d%s" % (n, "-twin" if twin else "")
-            css = page_css(260, 150, 10) + BASE + ".f { float: left; width: 50px; margin-right: 10px }\n.r { float: right; width: 50px }\n" + (TWIN_CSS if twin else PROBE_CSS)
+        for twin in [False]:
+            name = "oof-%02d" % n
+            PROBE_N[0] = 0
+            css = page_css(260, 150, 10) + BASE + ".f { float: left; width: 50px; margin-right: 10px }\n.r { float: right; width: 50px }\n" + PROBE_CSS
             flows = {}
             body = []
             main = []
@@ -222,8 +241,6 @@ def gen_oof():
             flows["main"] = main
             exp = dict(flows=flows, margin=True, probes=len(probes), page_w=260, page_h=150, conserve=True,
                        line_height=12, margin_top=10, margin_bottom=10)
-            if probes and not twin:
-                exp["twin"] = name + "-twin"
             scenario(name, "oof", doc(css, "\n".join(body)), expect=exp)
 
     # 5: absolutely positioned box broken across pages + relative container
@@ -250,7 +267,7 @@ def gen_oof():
             fw = words("n%d" % pi, 5)
             flows["fn%d" % pi] = fw
             fn = ' <span class=fn>%s</span>' % " ".join(fw)
-        body.append("<p>%s%s %s</p>" % (" ".join(ws[:5]), fn, " ".join(ws[5:]) + (' <span class=probe></span>' if pi == 5 else "")))
+        body.append("<p>%s%s %s</p>" % (" ".join(ws[:5]), fn, " ".join(ws[5:]) + ((' ' + probe()) if pi in (2, 5) else "")))
     flows["main"] = main
     scenario("oof-06", "oof", doc(css, "\n".join(body)),
              expect=dict(flows=flows, margin=True, probes=1, page_w=240, page_h=160, conserve=True, line_height=12, margin_top=10, margin_bottom=10))
@@ -283,9 +300,10 @@ def gen_oof():
              expect=dict(flows={"main": ws}, margin=True, page_w=260, page_h=150, conserve=True, line_height=12))
 
     # 9: two floats + absolute + probe on a page that holds pending out-of-flow content
-    for twin in (False, True):
-        name = "oof-09" + ("-twin" if twin else "")
-        css = page_css(280, 150, 10) + BASE + ".f { float: left; width: 50px; margin-right: 10px }\n" + (TWIN_CSS if twin else PROBE_CSS)
+    for twin in [False]:
+        name = "oof-09"
+        PROBE_N[0] = 0
+        css = page_css(280, 150, 10) + BASE + ".f { float: left; width: 50px; margin-right: 10px }\n" + PROBE_CSS
         flows, body, main = {}, [], []
         f1, f2 = words("f", 34), words("g", 22)
         flows["float0"], flows["float1"] = f1, f2
@@ -293,11 +311,9 @@ def gen_oof():
         wi = 1
         for pi in range(7):
             ws = words("w", 10, wi); wi += 10; main += ws
-            body.append(para(ws, "", 4 if pi == 3 else None))
+            body.append(para(ws, "", 4 if pi in (1, 3, 5) else None))
         flows["main"] = main
-        exp = dict(flows=flows, margin=True, probes=1, page_w=280, page_h=150, conserve=True, line_height=12)
-        if not twin:
-            exp["twin"] = name + "-twin"
+        exp = dict(flows=flows, margin=True, probes=3, page_w=280, page_h=150, conserve=True, line_height=12)
         scenario(name, "oof", doc(css, "\n".join(body)), expect=exp)
 
 
@@ -355,7 +371,7 @@ def gen_layouts():
             ws = words("r%dc%d" % (r, cidx), 2 + (r + cidx) % 3)
             flows["cell_%d_%d" % (r, cidx)] = ws
             span = ' colspan=2' if (r % 4 == 0 and cidx == 0) else ""
-            tds.append("<td%s>%s%s</td>" % (span, " ".join(ws), ' <span class=probe></span>' if (r, cidx) == (7, 2) else ""))
+            tds.append("<td%s>%s%s</td>" % (span, " ".join(ws), (' ' + probe()) if (r, cidx) in ((2, 1), (7, 2)) else ""))
         rows.append("<tr>%s</tr>" % "".join(tds))
     scenario("table-01", "table", doc(css, "<table>%s</table>" % "".join(rows)),
              expect=dict(flows=flows, margin=True, probes=1, page_w=300, page_h=150, conserve=True, line_height=12))
